@@ -16,15 +16,16 @@ import (
 
 // known-finding ids (see /verif/findings.d/c13.json)
 const (
-	fCond  = "C13-func-in-condition"                 // funcmap functions are invisible to v-if / v-else-if / v-show
-	fNest  = "C13-func-under-operator"               // funcmap functions cannot be called inside an operator expression
-	fErrC  = "C13-func-error-in-condition"           // failing function call in a condition is swallowed
-	fBNeg  = "C13-bare-negation"                     // {{ !x }} / :a="!x" print nothing
-	fShowN = "C13-vshow-negation-nonbool"            // v-show="!z" hides for falsy non-bool z while v-if="!z" shows
-	fQVar  = "C13-quoted-arg-reinterpreted"          // f("a") passes the value of variable a; " x " -> "x"; "'q'" -> q
-	fTagEl = "C13-tagged-field-of-slice-element"     // team[0].age + 1 fails where team is a slice of structs with JSON tags
-	fNegEr = "C13-func-error-after-leading-negation" // {{ !t || fail(a) }} prints a value instead of failing
-	fBoolN = "C13-arg-variable-named-like-bool"      // f(t) / f(f): a variable named t or f is read as the literal true / false
+	fCond  = "C13-func-in-condition"                        // funcmap functions are invisible to v-if / v-else-if / v-show
+	fNest  = "C13-func-under-operator"                      // funcmap functions cannot be called inside an operator expression
+	fErrC  = "C13-func-error-in-condition"                  // failing function call in a condition is swallowed
+	fBNeg  = "C13-bare-negation"                            // {{ !x }} / :a="!x" print nothing
+	fShowN = "C13-vshow-negation-nonbool"                   // v-show="!z" hides for falsy non-bool z while v-if="!z" shows
+	fQVar  = "C13-quoted-arg-reinterpreted"                 // f("a") passes the value of variable a; " x " -> "x"; "'q'" -> q
+	fWhole = "C13-whole-expression-call-bypasses-evaluator" // {{ upper(lower(h)) }} prints LOWER(H), {{ max(a, b) }}: function not found
+	fTagEl = "C13-tagged-field-of-slice-element"            // team[0].age + 1 fails where team is a slice of structs with JSON tags
+	fNegEr = "C13-func-error-after-leading-negation"        // {{ !t || fail(a) }} prints a value instead of failing
+	fBoolN = "C13-arg-variable-named-like-bool"             // f(t) / f(f): a variable named t or f is read as the literal true / false
 )
 
 type gen struct {
@@ -54,7 +55,7 @@ func (g *gen) paths(t *rapid.T, base, fnNamed []string) []string {
 func newGen(rec *ev.Rec) *gen {
 	f := kf.Load()
 	g := &gen{rec: rec, open: map[string]bool{}}
-	for _, id := range []string{fCond, fNest, fErrC, fBNeg, fShowN, fQVar, fBoolN, fNegEr, fTagEl} {
+	for _, id := range []string{fCond, fNest, fErrC, fBNeg, fShowN, fQVar, fBoolN, fNegEr, fTagEl, fWhole} {
 		g.open[id] = f.Open(id)
 	}
 	return g
@@ -179,7 +180,7 @@ func (g *gen) leaf(t *rapid.T, typ string, litOK, callArg bool) Expr {
 	case "map":
 		return Expr{K: "path", V: pick(t, "mpath", g.c().maps)}
 	}
-	return Expr{K: "path", V: pick(t, "bpath", g.argPaths(g.c().bools, callArg))}
+	return Expr{K: "path", V: pick(t, "bpath", g.argPaths(g.paths(t, g.c().bools, fnBoolPaths), callArg))}
 }
 
 func bin(op string, l, r Expr) Expr { return Expr{K: "bin", V: op, A: []Expr{l, r}} }
@@ -187,9 +188,9 @@ func call(f string, a ...Expr) Expr { return Expr{K: "call", V: f, A: a} }
 
 // callsOf lists the function calls producing typ: {name, parameter leaf types…}.
 var callsOf = map[string][][]string{
-	"int":    {{"incp", "*int"}, {"addp", "*int", "int"}, {"len", "list"}, {"len", "string"}, {"len", "map"}, {"int", "numstr"}, {"int", "int"}, {"add", "int", "int"}, {"sum", "int", "int", "int"}},
-	"float":  {{"half", "float"}, {"scale", "float", "float"}},
-	"string": {{"fmtDate", "*time"}, {"upp", "*string"}, {"pname", "*rec"}, {"typ", "*any"}, {"upper", "string"}, {"lower", "string"}, {"trim", "string"}, {"string", "int"}, {"string", "fracfloat"}, {"string", "string"}, {"greet", "string"}, {"ctxup", "string"}, {"title", "lowstr"}, {"pick", "bool", "string", "string"}},
+	"int":    {{"abs", "int"}, {"max", "int", "int"}, {"min", "int", "int"}, {"first", "intlist"}, {"last", "intlist"}, {"incp", "*int"}, {"addp", "*int", "int"}, {"len", "list"}, {"len", "string"}, {"len", "map"}, {"int", "numstr"}, {"int", "int"}, {"add", "int", "int"}, {"sum", "int", "int", "int"}},
+	"float":  {{"abs", "float"}, {"half", "float"}, {"scale", "float", "float"}},
+	"string": {{"first", "strlist"}, {"last", "strlist"}, {"fmtDate", "*time"}, {"upp", "*string"}, {"pname", "*rec"}, {"typ", "*any"}, {"upper", "string"}, {"lower", "string"}, {"trim", "string"}, {"string", "int"}, {"string", "fracfloat"}, {"string", "string"}, {"greet", "string"}, {"ctxup", "string"}, {"title", "lowstr"}, {"pick", "bool", "string", "string"}},
 	"bool":   {{"isBig", "int"}, {"neg", "bool"}},
 }
 
@@ -201,8 +202,8 @@ func (g *gen) callExpr(t *rapid.T, typ string, nonShared, top bool) Expr {
 		if _, bound := fnVars[c[0]]; bound && g.fn {
 			continue // the data binds this name: calling it is unspecified (the variable shadows the function)
 		}
-		if g.cat != nil && len(c) > 1 && strings.HasPrefix(c[1], "*") {
-			continue // the pointer-typed data lives in the map environments
+		if g.cat != nil && len(c) > 1 && (strings.HasPrefix(c[1], "*") || strings.HasSuffix(c[1], "list") && c[1] != "list") {
+			continue // the pointer-typed data and the xs / ss lists live in the map environments
 		}
 		if funcs[c[0]].shared || nonShared {
 			cands = append(cands, c)
@@ -225,11 +226,21 @@ func (g *gen) callExpr(t *rapid.T, typ string, nonShared, top bool) Expr {
 			}
 		case "lowstr":
 			e.A = append(e.A, Expr{K: "path", V: pick(t, "lowpath", g.c().lowstr)})
+		case "intlist":
+			e.A = append(e.A, p("xs"))
+		case "strlist":
+			e.A = append(e.A, p("ss"))
 		case "*time", "*int", "*string", "*rec":
 			e.A = append(e.A, Expr{K: "path", V: pick(t, "ptrpath", ptrPaths[pt])})
 		case "*any": // the type-identity function over any pointer path
 			e.A = append(e.A, Expr{K: "path", V: pick(t, "ptrpath", ptrPaths[pick(t, "ptrtype", ptrTypeOrder)])})
 		default:
+			if rapid.IntRange(0, 3).Draw(t, "nestedcall") == 0 {
+				if n, ok := g.nestedArg(t, pt); ok {
+					e.A = append(e.A, n) // a call directly inside the call
+					continue
+				}
+			}
 			e.A = append(e.A, g.leaf(t, pt, true, top))
 		}
 	}
@@ -389,6 +400,12 @@ func (g *gen) finishExpr(c Case) (Case, bool) {
 		pos = without(pos, condPos...)
 		g.excluded(fCond)
 	}
+	if g.open[fWhole] && wholeCallRegion(*c.E) {
+		// the whole expression is one call with a nested call / of a library built-in: the value
+		// positions bypass the expression evaluator
+		pos = without(pos, valuePos...)
+		g.excluded(fWhole)
+	}
 	if len(pos) == 0 {
 		return c, false
 	}
@@ -457,6 +474,7 @@ var pipeInits = []string{
 	"a", "b", "z", "n", "m.k", "xs[1]", "st.Age", "us[1].age", "big",
 	"f", "g", "zf", "m.rate", "fs[0]", "st.Score",
 	"z10", "z08", "z007", "z0s", "sp", "sp2", "spl", "spt",
+	`errs['user[email]']`, `errs["tags[]"]`, `errs['a.b']`, `errs['two words']`, `errs["it's"]`, `errs['say "hi"']`, `errs['item[0][id]']`, `errs['sub[x]'].s`, `errs["sub[x]"]["n"]`, `errs['ok[]']`, `errs['sub[x]']`,
 	"post.PublishedAt", "pt.at", "ts", "post.Views", "pm.k", `pm['k']`, "ptrs[1]", "pi", "post.Slug", "post.Author", "prec",
 	"s", "h", "e", "num", "pad", "m.name", `m["name"]`, `m['name']`, "m.inner.s", "ss[0]", "st.Name", "st.In.S", "us[0].name",
 	"t", "u", "m.ok", "bs[0]", "st.Ok",
@@ -928,6 +946,15 @@ func classify(c Case) (bool, []string) {
 				k = "A:redundant-parens"
 			case "call":
 				k = "A:call " + x.V
+				for _, a := range x.A {
+					if a.K == "call" && !seen["A:call nested directly in a call"] {
+						seen["A:call nested directly in a call"] = true
+						cls = append(cls, "A:call nested directly in a call")
+					}
+				}
+				if f := funcs[x.V]; f != nil && f.exprlib {
+					k = "A:call library built-in " + x.V
+				}
 				if f := funcs[x.V]; f != nil && f.sig {
 					k = "S:call-form"
 					for _, extra := range sigClasses(f, len(x.A)) {
@@ -958,6 +985,8 @@ func classify(c Case) (bool, []string) {
 					if strings.HasPrefix(x.V, "editor.") || strings.HasPrefix(x.V, "team[2]") {
 						k = "A:path-struct-root second reference to a shared pointer"
 					}
+				case strings.HasPrefix(x.V, "errs["):
+					k = "A:path-quoted-key with ] [ . blank or quote"
 				case contains(blankPaths, x.V):
 					k = "A:path-string-with-blanks"
 				case strings.Contains(x.V, `["`) || strings.Contains(x.V, `['`):
